@@ -484,6 +484,14 @@ Proof.
   rewrite unpad_pw_lookup by auto. reflexivity.
 Qed.
 
+(* the same, over the window index set in ravel() order *)
+Lemma pw_sum_Jwin g (F : Z * Z * Z * Z * Z * Z -> option pos -> A) : valid g ->
+  isum (pw_contribs g) (fun wt => F (fst wt) (snd wt)) = isum (Jwin g) (fun w => F w (phi_win_opt g w)).
+Proof.
+  intros Hv. rewrite pw_sum by auto. unfold Jwin, P2. rewrite !isum_list_prod.
+  apply isum_ext; intros i _. apply isum_ext; intros j _. unfold P4. rewrite !isum_list_prod. reflexivity.
+Qed.
+
 Lemma fast_src_unf_closed g i j n c a b : valid g ->
   0 <= i < lH g -> 0 <= j < lW g -> 0 <= n < gN g -> 0 <= c < gC g -> 0 <= a < kH g -> 0 <= b < kW g ->
   fast_src_unf g (i, j, n, c, a, b) = (n, (c * kH g + a) * kW g + b, i * lW g + j).
